@@ -55,7 +55,12 @@ def evaluate(d: Path) -> dict:
     assert sh("git -C /repo status --porcelain").stdout.strip() == "", "/repo is dirty"
     try:
         assert sh(f"git -C /repo apply {patch}").returncode == 0
-        c = sh(f"cd {ROOT} && {PY} harness/check.py {pid} quick", timeout=1800)
+        try:
+            c = sh(f"cd {ROOT} && {PY} harness/check.py {pid} quick", timeout=600)
+        except subprocess.TimeoutExpired:
+            res.update(check_exit="timeout", check_violation=False, check_says="the quick check did not finish within 600 s with this change applied")
+            res["kept"] = bool(res.get("tests_pass") and res.get("demo_with_change") == 1 and res.get("demo_without_change") == 0)
+            return res
         out = c.stdout
         res["check_exit"] = c.returncode
         vio = [l for l in out.splitlines() if l.startswith("VIOLATION")]
